@@ -1,52 +1,44 @@
 (* C34 — Volume server access control with signed tokens.
    Only statements closed by [exact]; proofs live in proof/JwtProofs.v.  The model
-   (model/Jwt.v) is the code as it is; the JWT library is an oracle (token facts).
+   (model/Jwt.v) is the code as it is — with the repair of finding C34/0 in PostHandler
+   (an upload whose own reading of the path gives another needle than the checked file
+   id is answered 400); the JWT library is an oracle (token facts).
 
-   c34_accept_sound at FULL strength says: whenever the key of the request's class
-   (write key for POST/PUT/DELETE, read key for GET/HEAD) is configured and a handler
-   reaches the store, the request carries a well-formed, unexpired HMAC token signed
-   with THAT key whose fid claim is textually "<vid>,<fid>" (after _n stripping) of
-   the file the store operation addresses.  The code violates the last clause for
-   uploads whose path is read differently by parseURLPath (token check) and by
-   needle.CreateNeedleFromRequest (write): known finding 0, witness below.  It is
-   proved for every request outside that decidable trigger; the token part is
-   proved for every request. *)
+   c34_accept_sound (FULL): whenever the key of the request's class (write key for
+   POST/PUT/DELETE, read key for GET/HEAD) is configured and a handler reaches the
+   store, the request carries a well-formed, unexpired HMAC token signed with THAT key
+   whose fid claim is textually "<vid>,<fid>" (after _n stripping) of the file the
+   store operation addresses.
+   c34_reject_before_touch (FULL): a request whose check fails never reaches the store. *)
 From Coq Require Import List NArith Bool String.
 From SW Require Import model.Jwt proof.JwtProofs.
 Import ListNotations.
 Local Open Scope string_scope.
 
-(* FULL on the token, all requests *)
-Theorem c34_accept_token_sound : forall tab cfg rq v f,
+Theorem c34_accept_sound : forall tab cfg rq v f,
   key_for cfg (is_write_method (rq_method rq)) <> "" ->
-  handle tab cfg rq = Proceed v f ->
-  exists fid, parse_url_path (rq_path rq) = Some (v, fid) /\
-    valid_token_for tab (key_for cfg (is_write_method (rq_method rq))) rq (v ++ "," ++ strip_suffix fid).
-Proof. exact accept_token_sound. Qed.
-Print Assumptions c34_accept_token_sound.
-
-(* PARTIAL: the claim names the file the store is addressed with *)
-Theorem c34_accept_sound_partial : forall tab cfg rq v f,
-  key_for cfg (is_write_method (rq_method rq)) <> "" ->
-  trig_upload_target rq = false ->
   handle tab cfg rq = Proceed v f ->
   valid_token_for tab (key_for cfg (is_write_method (rq_method rq))) rq (v ++ "," ++ strip_suffix f).
-Proof. exact accept_sound_partial. Qed.
-Print Assumptions c34_accept_sound_partial.
+Proof. exact accept_sound. Qed.
+Print Assumptions c34_accept_sound.
 
-(* REFUTED: PUT /3/01637037d6/x,02637037d6 with a token for 3,01637037d6 writes 3,02637037d6 *)
-Theorem c34_accept_sound_refuted :
-  handle [("T", w_tok)] w_cfg w_rq = Proceed "3" "02637037d6" /\
-  parse_url_path (rq_path w_rq) = Some ("3", "01637037d6") /\
-  t_fid w_tok <> "3" ++ "," ++ strip_suffix "02637037d6" /\
-  trig_upload_target w_rq = true.
-Proof. exact accept_sound_refuted. Qed.
-Print Assumptions c34_accept_sound_refuted.
+(* what "Proceed v f" stands for: v,f are parseURLPath's reading of the path, the check passed on
+   them, an upload's needle is the needle f denotes, writes come through the private port and
+   past the white list *)
+Theorem c34_proceed_authorized : forall tab cfg rq v f, handle tab cfg rq = Proceed v f ->
+  parse_url_path (rq_path rq) = Some (v, f) /\
+  check_jwt tab cfg (is_write_method (rq_method rq)) rq v f = true /\
+  (is_upload (rq_method rq) = true -> rq_same_needle rq = true) /\
+  (is_write_method (rq_method rq) = true -> rq_public rq = false /\ whitelist_blocks cfg rq = false).
+Proof. exact proceed_authorized. Qed.
+Print Assumptions c34_proceed_authorized.
 
-(* reads and deletes are never inside the trigger *)
-Theorem c34_trigger_only_uploads : forall rq, is_upload (rq_method rq) = false -> trig_upload_target rq = false.
-Proof. exact trigger_only_uploads. Qed.
-Print Assumptions c34_trigger_only_uploads.
+(* the repair: an upload addressed (by its own path reader) to another needle is refused *)
+Theorem c34_upload_other_needle_refused : forall tab cfg rq,
+  is_upload (rq_method rq) = true -> rq_same_needle rq = false ->
+  is_proceed (handle tab cfg rq) = false.
+Proof. exact upload_other_needle_refused. Qed.
+Print Assumptions c34_upload_other_needle_refused.
 
 (* c34_reject_before_touch (FULL): a request whose check fails is answered 401 (400 when an
    upload's volume id does not parse first; not routed on the public port) — the store step
@@ -71,15 +63,6 @@ Theorem c34_panic_not_proceed : forall tab cfg rq, parse_url_path (rq_path rq) =
   is_proceed (handle tab cfg rq) = false.
 Proof. exact panic_not_proceed. Qed.
 Print Assumptions c34_panic_not_proceed.
-
-(* the store is reached only through a successful check, on the private port, past the white list *)
-Theorem c34_proceed_authorized : forall tab cfg rq v f, handle tab cfg rq = Proceed v f ->
-  exists fid, parse_url_path (rq_path rq) = Some (v, fid) /\
-    check_jwt tab cfg (is_write_method (rq_method rq)) rq v fid = true /\
-    target_fid rq fid = Some f /\
-    (is_write_method (rq_method rq) = true -> rq_public rq = false /\ whitelist_blocks cfg rq = false).
-Proof. exact proceed_authorized. Qed.
-Print Assumptions c34_proceed_authorized.
 
 (* the check itself *)
 Theorem c34_check_sound : forall tab cfg w rq vid fid,
@@ -115,22 +98,32 @@ Theorem c34_suffix_ignored : forall tab cfg w rq vid base n,
 Proof. exact check_jwt_suffix. Qed.
 Print Assumptions c34_suffix_ignored.
 
-(* acceptance implies the reference used by the correspondence check, outside the trigger *)
+(* acceptance implies the reference used by the correspondence check *)
 Theorem c34_proceed_allowed : forall tab cfg rq presented v f,
   In (get_jwt rq) presented ->
-  trig_upload_target rq = false ->
   (forall t, lookup (get_jwt rq) tab = Some t ->
              t_fid t = v ++ "," ++ strip_suffix f -> t_names_target t = true) ->
   handle tab cfg rq = Proceed v f -> spec_allows tab cfg rq presented = true.
 Proof. exact proceed_allowed. Qed.
 Print Assumptions c34_proceed_allowed.
 
+(* the former witness of finding C34/0 is now refused with 400 before the store *)
+Example c34_repaired_witness :
+  parse_url_path (rq_path w_rq) = Some ("3", "01637037d6") /\
+  upload_fid (rq_path w_rq) = Some "02637037d6" /\
+  handle [("T", w_tok)] w_cfg w_rq = BadRequest.
+Proof. exact repaired_witness. Qed.
+
 (* non-vacuity; and the comparison is textual, so "03,..." is refused (stricter than needed) *)
 Example c34_example :
   let rq := {| rq_public := false; rq_method := DELETE; rq_query_jwt := ""; rq_auth := "Bearer T";
-               rq_path := "/3,01637037d6_1"; rq_vid_ok := true; rq_fid_ok := true; rq_upfid_ok := true; rq_wl_pass := false |} in
-  trig_upload_target rq = false /\
+               rq_path := "/3,01637037d6_1"; rq_vid_ok := true; rq_fid_ok := true; rq_upfid_ok := true;
+               rq_same_needle := true; rq_wl_pass := false |} in
+  let up := {| rq_public := false; rq_method := PUT; rq_query_jwt := "T"; rq_auth := "";
+               rq_path := "/3,01637037d6.txt"; rq_vid_ok := true; rq_fid_ok := true; rq_upfid_ok := true;
+               rq_same_needle := true; rq_wl_pass := false |} in
   handle [("T", w_tok)] w_cfg rq = Proceed "3" "01637037d6_1" /\
+  handle [("T", w_tok)] w_cfg up = Proceed "3" "01637037d6" /\
   handle [("T", {| t_wellformed := true; t_alg := AlgHMAC; t_signed_with := w_key; t_exp_ok := true; t_nbf_ok := true;
                    t_iat_ok := true; t_fid := "03,01637037d6"; t_names_target := true |})] w_cfg rq = Unauthorized /\
   handle [("T", {| t_wellformed := true; t_alg := AlgNone; t_signed_with := ""; t_exp_ok := true; t_nbf_ok := true;
